@@ -82,6 +82,11 @@ Inductive dates :=
 Definition is_infinite (rc : recur) : bool :=      (* getrruleset: no UNTIL and no COUNT part [fix F16] *)
   match r_bound (rc_rule rc) with RForever => true | _ => false end.
 
+(* candidates removed by EXDATE cost fuel too: none lies beyond the largest EXDATE *)
+Definition ex_bound (b : Z) (ex : list Z) : Z := fold_right Z.max b ex.
+Definition first_fuel (s0 : Z) (rc : recur) : nat :=
+  S (Z.to_nat ((ex_bound s0 (rc_ex rc) - s0) / r_period (rc_rule rc) + 1)).
+
 (* ------------------------------------------------------------------ the visitor, generic in the state of range_fn *)
 Section Visit.
   Context {St : Type}.
@@ -109,7 +114,7 @@ Section Visit.
              if stop then Some (st', true) else visit_rule f per_date s0 rc (k + 1) st'
     end.
 
-  (* first date of the recurrence set (for infinity_fn); the EXDATE list is finite, fuel = its length + 1 *)
+  (* first date of the recurrence set (for infinity_fn); no candidate beyond the largest EXDATE is removed *)
   Fixpoint first_date (fuel : nat) (s0 : Z) (rc : recur) (k : Z) : option Z :=
     match fuel with
     | O => None
@@ -123,7 +128,7 @@ Section Visit.
     | DOne d => Some (run_calls (per_date d) st)
     | DRule s0 rc =>
         if is_infinite rc then
-          match first_date (S (length (rc_ex rc))) s0 rc 0 with
+          match first_date (first_fuel s0 rc) s0 rc 0 with
           | Some d0 =>
               let '(st', stop) := infinity_fn d0 st in
               if stop then Some (st', true) else visit_rule fuel per_date s0 rc 0 st'
@@ -238,8 +243,6 @@ Definition range_bound (r : trange) : Z :=
   | (Some s, None) => s
   | (None, None) => 0
   end.
-(* candidates removed by EXDATE cost fuel too: none lies beyond the largest EXDATE *)
-Definition ex_bound (b : Z) (ex : list Z) : Z := fold_right Z.max b ex.
 Definition match_fuel (o : obj) (r : trange) : nat :=
   match obj_rule o with
   | Some (s0, rc) =>
@@ -475,3 +478,37 @@ Section FreeBusy.
                    if gf_skip tag (it_comp (fb_item fi)) istart iend start end_ then []
                    else [(fi, gf_matched simple istart iend start end_)]) items).
 End FreeBusy.
+
+(* ------------------------------------------------------------------ what the visitor can hand to range_fn
+   (specification-level definition used by the theorems; not executable for unbounded rules) *)
+Definition visited (o : obj) (c : call) : Prop :=
+  match o with
+  | OEvent ev => exists D, occurs (ev_start ev) (ev_rec ev) D /\ In c (vevent_calls ev false D)
+  | OTodo t =>
+      match vtodo_dates t with
+      | None => c = mkcall MInf PInf false
+      | Some (DOne d) => In c (vtodo_calls t false d)
+      | Some DNone => False
+      | Some (DRule a rc) => exists D, occurs a (Some rc) D /\ In c (vtodo_calls t false D)
+      end
+  | OJournal j =>
+      match jn_start j with
+      | Some (k, s0) => exists D, occurs s0 (jn_rec j) D /\ In c (vjournal_calls k false D)
+      | None => False
+      end
+  end.
+
+(* the class of the known finding F14: an unbounded recurring VTODO whose block begins one second before the
+   reference date (DURATION = 0, or DUE = DTSTART): the enclosing range computed through infinity_fn starts
+   one second late *)
+Definition f14_class (o : obj) : Prop :=
+  match o with
+  | OTodo t =>
+      match td_rec t, td_dtstart t with
+      | Some rc, Some s0 =>
+          is_infinite rc = true /\
+          (td_duration t = Some 0 \/ (td_duration t = None /\ td_due t = Some s0))
+      | _, _ => False
+      end
+  | _ => False
+  end.
